@@ -1300,6 +1300,241 @@ def grid_cartesian(P, rep, rule="GRID.cartesian"):
     rep.floor(rule, n_ok, 2, "cartesian grid dimensions verified")
 
 
+def grid_chunk(P, rep, rule="GRID.chunk"):
+    """the chunk mesh: (longitude, latitude, radius) lattice, its conversion to Cartesian coordinates, and the cell connectivity"""
+    rep.rule(rule, "gwb-grid, grid_type chunk (compressed numbering): node c of the lattice loop (i, j, k), all starting at 1 and running to "
+                   "n_cell + 1, first holds longitude x_min + (i-1)*(x_max-x_min)/n_cell_x, latitude y_min + (j-1)*(y_max-y_min)/n_cell_y and "
+                   "radius z_min + (k-1)*(z_max-z_min)/n_cell_z; the second stage replaces every node by r (cos lat cos lon, cos lat sin lon, "
+                   "sin lat) (2D: r (cos lon, sin lon)), reading the three stored values before writing any; with N(i,j,k) the node counter of "
+                   "the lattice loop, cell (i,j,k) lists the corners of one lattice cell: a closed walk around the bottom face (each step "
+                   "changes one index by one) and, in 3D, the same walk one radial step further out (VTK quad / hexahedron)")
+    F = main_of(P, "gwb-grid")
+    R = lambda x: norm.render(P, x, nocast=True).replace(" ", "")
+    blocks = [x for x in F.walk() if x.get("k") == "IfStmt" and R(x["c"][0]) in ('(grid_type=="chunk")', '("chunk"==grid_type)')]
+    if len(blocks) != 1:
+        rep.unknown(rule, "%d `grid_type == \"chunk\"` blocks" % len(blocks))
+        return
+    blk = blocks[0]["c"][1]
+    miss = astq.missing_anchors(P, F, ["x_min", "x_max", "y_min", "y_max", "z_min", "z_max", "n_cell_x", "n_cell_y", "n_cell_z", "grid_x", "grid_y", "grid_z",
+                                        "grid_connectivity", "counter", "dim"])
+    if miss:
+        rep.unknown(rule, "gwb-grid main: the variables %s this rule is written over no longer exist (renamed?)" % miss)
+        return
+    nx, ny, nz = sp.symbols("n_cell_x n_cell_y n_cell_z", integer=True, positive=True)
+    xmin, ymin, zmin, xmax, ymax, zmax = sp.symbols("x_min y_min z_min x_max y_max z_max", real=True)
+    namesym = {"n_cell_x": nx, "n_cell_y": ny, "n_cell_z": nz, "x_min": xmin, "y_min": ymin, "z_min": zmin, "x_max": xmax, "y_max": ymax, "z_max": zmax}
+    base_env = {}
+    for nm_, sy_ in namesym.items():
+        try:
+            base_env[var_by_name(F, nm_)] = sy_
+        except AnalysisBroken:
+            pass
+    dir_of = {nx: 0, ny: 1, nz: 2}
+
+    def loop_nest(node):
+        """[(var key, start, last value (sympy), direction symbol)] from the outermost enclosing for-loop inside blk to the innermost"""
+        nest = []
+        for a in F.ancestors(node):
+            if a is blk:
+                break
+            if a.get("k") == "ForStmt":
+                init, cond = a["c"][0], sc(a["c"][1])
+                if not (init is not None and init.get("k") == "DeclStmt" and init["c"] and init["c"][0].get("c")):
+                    return None
+                iv = init["c"][0]
+                start = sc(iv["c"][0])
+                if start.get("k") != "IntegerLiteral" or cond is None or cond.get("k") != "BinaryOperator" or cond.get("op") not in ("<", "<="):
+                    return None
+                if not astq.is_ref_to(cond["c"][0], iv["r"]):
+                    return None
+                inc = sc(a["c"][2]) if a["c"][2] is not None else None
+                if inc is None or inc.get("k") != "UnaryOperator" or inc.get("op") != "++" or not astq.is_ref_to(inc["c"][0], iv["r"]):
+                    return None
+                b = sp.expand(norm.Sym(P, F, inline_locals=True, env=dict(base_env))(cond["c"][1]))
+                last = b if cond["op"] == "<=" else b - 1
+                ds = [d_ for d_ in (nx, ny, nz) if last.has(d_)]
+                if len(ds) != 1 or last.free_symbols - {ds[0]}:
+                    return None
+                nest.append((iv["r"], int(start["v"]), last, ds[0]))
+        return nest[::-1]
+
+    def counter_formula(nest, loopsyms):
+        total = sp.Integer(0)
+        stride = sp.Integer(1)
+        for (key, start, last, dsym) in reversed(nest):
+            total += (loopsyms[key] - start) * stride
+            stride *= (last - start + 1)
+        return sp.expand(total)
+    n_ok = 0
+    for dim in (2, 3):
+        want_dirs = {nx, nz} if dim == 2 else {nx, ny, nz}
+        # ---- lattice values
+        pos = {}
+        for y in F.walk(blk):
+            if y.get("k") == "BinaryOperator" and y.get("op") == "=":
+                s_ = astq.subscript(y["c"][0])
+                if s_ and sc(s_[0]).get("n") in ("grid_x", "grid_y", "grid_z") and R(s_[1]) == "counter":
+                    nest = loop_nest(y)
+                    if nest is None:
+                        continue
+                    if {d_ for (_, _, _, d_) in nest} == want_dirs and len(nest) == dim and all(sp.expand(last - (d_ + st)) == 0 for (_, st, last, d_) in nest):
+                        pos.setdefault(sc(s_[0])["n"], (y, nest))
+        need = ("grid_x", "grid_z") if dim == 2 else ("grid_x", "grid_y", "grid_z")
+        if not all(k in pos for k in need):
+            rep.unknown(rule, "dim %d: lattice loop not recognised (found %s)" % (dim, sorted(pos)))
+            continue
+        nest = pos["grid_x"][1]
+        loopsyms = {key: sp.Symbol("L%d" % dir_of[d_], integer=True, positive=True) for (key, _, _, d_) in nest}
+        by_dir = {d_: (loopsyms[key], st) for (key, st, _, d_) in nest}
+        env = dict(base_env)
+        env.update(loopsyms)
+        symp = norm.Sym(P, F, inline_locals=True, env=env)
+        want_pos = {"grid_x": xmin + (by_dir[nx][0] - by_dir[nx][1]) * (xmax - xmin) / nx, "grid_z": zmin + (by_dir[nz][0] - by_dir[nz][1]) * (zmax - zmin) / nz}
+        if dim == 3:
+            want_pos["grid_y"] = ymin + (by_dir[ny][0] - by_dir[ny][1]) * (ymax - ymin) / ny
+        bad = []
+        for k in need:
+            got = symp(pos[k][0]["c"][1])
+            def pick(e, dim=dim):
+                c_ = e.args[0]
+                nm_ = getattr(c_.func, "__name__", "")
+                lits = [a_ for a_ in getattr(c_, "args", ()) if getattr(a_, "is_Integer", False)]
+                if nm_ in ("op==", "op!=") and len(lits) == 1:
+                    t_ = (int(lits[0]) == dim) == (nm_ == "op==")
+                    return e.args[1] if t_ else e.args[2]
+                return e
+            got = got.replace(lambda e: getattr(e.func, "__name__", "") == "ite", pick)
+            if sp.simplify(got - want_pos[k]) != 0:
+                bad.append("%s = %s" % (k, str(got)[:70]))
+        if bad:
+            rep.violation(rule, "dim %d: lattice values are %s" % (dim, "; ".join(bad)), F.nloc(pos[need[0]][0]), F.qn, "",
+                          "expected min + (index - 1) * (max - min)/n_cell for longitude, latitude and radius", key="%s|pos|%d" % (rule, dim),
+                          witness="a %dD chunk with different cell counts per direction" % dim)
+            continue
+        Nf = counter_formula(nest, loopsyms)
+        # ---- conversion to Cartesian coordinates: a loop over all nodes that reads the stored values into locals and overwrites them
+        conv = None
+        for y in F.walk(blk):
+            if y.get("k") != "ForStmt":
+                continue
+            stores = {}
+            for z in F.walk(y["c"][3]):
+                if z.get("k") == "BinaryOperator" and z.get("op") == "=":
+                    s_ = astq.subscript(z["c"][0])
+                    if s_ and sc(s_[0]).get("n") in ("grid_x", "grid_y", "grid_z") and any(t_.get("k") == "CallExpr" for t_ in F.walk(z["c"][1])):
+                        stores[sc(s_[0])["n"]] = (z, s_[1])
+            if set(stores) == set(need):
+                conv = (y, stores)
+                break
+        if conv is None:
+            rep.unknown(rule, "dim %d: conversion loop (lon, lat, r) -> (x, y, z) not found" % dim)
+            continue
+        cy, stores = conv
+        civ = cy["c"][0]["c"][0] if cy["c"][0] is not None and cy["c"][0].get("k") == "DeclStmt" else None
+        ccond = sc(cy["c"][1])
+        whole = civ is not None and civ.get("c") and sc(civ["c"][0]).get("k") == "IntegerLiteral" and int(sc(civ["c"][0])["v"]) == 0 and ccond is not None and \
+            ccond.get("op") == "<" and R(ccond["c"][1]) == "n_p"
+        lon, lat, rad = sp.symbols("LON LAT RAD", real=True)
+
+        def chook(nn):
+            s2 = astq.subscript(nn)
+            if s2 and civ is not None and astq.is_ref_to(s2[1], civ["r"]) and sc(s2[0]).get("n") in ("grid_x", "grid_y", "grid_z"):
+                return {"grid_x": lon, "grid_y": lat, "grid_z": rad}[sc(s2[0])["n"]]
+            return None
+        symv = norm.Sym(P, F, inline_locals=True, hook=chook)
+        want_c = {"grid_x": rad * sp.cos(lon), "grid_z": rad * sp.sin(lon)} if dim == 2 else \
+            {"grid_x": rad * sp.cos(lat) * sp.cos(lon), "grid_y": rad * sp.cos(lat) * sp.sin(lon), "grid_z": rad * sp.sin(lat)}
+        badc = []
+        for k in need:
+            z, idx = stores[k]
+            if not astq.is_ref_to(idx, civ["r"]) if civ is not None else True:
+                badc.append("%s is stored at another index" % k)
+                continue
+            # the right-hand side may only use locals read before the first store (no grid array read after an overwrite)
+            if any(astq.subscript(t_) and sc(astq.subscript(t_)[0]).get("n") in ("grid_x", "grid_y", "grid_z") for t_ in F.walk(z["c"][1])):
+                badc.append("%s is computed from array elements that may already be overwritten" % k)
+                continue
+            got = symv(z["c"][1])
+            if sp.simplify(got - want_c[k]) != 0:
+                badc.append("%s = %s" % (k, str(got)[:60]))
+        if not whole:
+            badc.append("the conversion loop does not run over all n_p nodes")
+        if badc:
+            rep.violation(rule, "dim %d: conversion to Cartesian coordinates: %s" % (dim, "; ".join(badc)[:240]), F.nloc(cy), F.qn, "",
+                          "expected r (cos lat cos lon, cos lat sin lon, sin lat) of the stored lattice values", key="%s|conv|%d" % (rule, dim),
+                          witness="a %dD chunk away from longitude 0" % dim)
+            continue
+        # ---- connectivity
+        conn = {}
+        for y in F.walk(blk):
+            if y.get("k") == "BinaryOperator" and y.get("op") == "=":
+                s_ = astq.subscript(y["c"][0])
+                s2_ = astq.subscript(s_[0]) if s_ else None
+                if s2_ and sc(s2_[0]).get("n") == "grid_connectivity" and R(s2_[1]) == "counter" and sc(s_[1]).get("k") == "IntegerLiteral":
+                    cn = loop_nest(y)
+                    if cn is None:
+                        continue
+                    if {d_ for (_, _, _, d_) in cn} == want_dirs and len(cn) == dim and all(st == 1 and sp.expand(last - d_) == 0 for (_, st, last, d_) in cn):
+                        conn[int(sc(s_[1])["v"])] = (y, cn)
+        nvert = 4 if dim == 2 else 8
+        if sorted(conn) != list(range(nvert)):
+            rep.unknown(rule, "dim %d: connectivity loop not recognised (entries %s)" % (dim, sorted(conn)))
+            continue
+        cn = conn[0][1]
+        # same nesting order as the lattice loop, otherwise the cell counter and the node numbering do not belong together
+        if [d_ for (_, _, _, d_) in cn] != [d_ for (_, _, _, d_) in nest]:
+            rep.violation(rule, "dim %d: the cell loop nests its directions differently from the node loop" % dim, F.nloc(conn[0][0]), F.qn, "", "cells are numbered against another lattice",
+                          key="%s|nest|%d" % (rule, dim))
+            continue
+        csyms = {key: sp.Symbol("C%d" % dir_of[d_], integer=True, positive=True) for (key, _, _, d_) in cn}
+        cby = {d_: csyms[key] for (key, _, _, d_) in cn}
+        envc = dict(base_env)
+        envc.update(csyms)
+        symc = norm.Sym(P, F, inline_locals=True, env=envc)
+        dirs = [nx, nz] if dim == 2 else [nx, ny, nz]
+
+        def node(off):
+            return sp.expand(Nf.subs({by_dir[d_][0]: cby[d_] + off[i_] for i_, d_ in enumerate(dirs)}, simultaneous=True))
+        corners = {}
+        import itertools as _it
+        for off in _it.product((0, 1), repeat=dim):
+            corners[node(off)] = off
+        got_offs = []
+        badv = []
+        for m in range(nvert):
+            got = sp.expand(symc(conn[m][0]["c"][1]))
+            if got not in corners:
+                badv.append("vertex %d = %s is not a corner of lattice cell (i, j, k)" % (m, got))
+            else:
+                got_offs.append(corners[got])
+        if not badv:
+            if len(set(got_offs)) != nvert:
+                badv.append("a corner is listed twice")
+            else:
+                rad_i = dirs.index(nz)
+
+                def walk_ok(face):
+                    return all(sum(abs(a - b) for a, b in zip(face[q], face[(q + 1) % 4])) == 1 for q in range(4))
+                if dim == 2:
+                    if not walk_ok(got_offs):
+                        badv.append("the four corners are not listed as a closed walk around the cell: %s" % got_offs)
+                else:
+                    bottom, top = got_offs[:4], got_offs[4:]
+                    if not (all(o[rad_i] == 0 for o in bottom) and all(o[rad_i] == 1 for o in top)):
+                        badv.append("entries 0-3 / 4-7 are not the inner and the outer face: %s" % got_offs)
+                    elif not walk_ok(bottom):
+                        badv.append("the inner face is not a closed walk: %s" % bottom)
+                    elif any(tuple(v if q != rad_i else 1 for q, v in enumerate(b)) != t for b, t in zip(bottom, top)):
+                        badv.append("entry m+4 is not the corner radially above entry m")
+        if badv:
+            rep.violation(rule, "dim %d: cell connectivity: %s" % (dim, "; ".join(badv)[:300]), F.nloc(conn[0][0]), F.qn, "", "a cell does not consist of the corners of one lattice cell in VTK order",
+                          key="%s|conn|%d" % (rule, dim), witness="any %dD chunk with more than one cell per direction" % dim)
+        else:
+            n_ok += 1
+            rep.ok(rule, "dim %d: lattice values, conversion and %d-vertex connectivity agree with the node numbering N = %s" % (dim, nvert, Nf), F.nloc(conn[0][0]), F.qn)
+    rep.floor(rule, n_ok, 2, "chunk grid dimensions verified")
+
+
 def filter_call_sites(P, rep, rule="FILTER.calls"):
     rep.rule(rule, "filter_vtu_mesh appends to its output mesh and data sets: at every call the output containers are objects declared in the "
                    "same iteration (block) as the call and not used before it, so each filtered file starts empty")
